@@ -114,6 +114,21 @@ func (s *Sim) checkHandOff(li *ledgerInst, logs []*ledger.ChainedLog) {
 	if n := len(li.m.Rows); n > 0 && li.m.Rows[n-1].Gen != s.cur.Idx {
 		feat = append(feat, "first-batch-after-restart")
 	}
+	// A batch that only repeats rows which are already persisted, hash for hash, is a re-send (a
+	// retry after a commit that was reported as failed): the store refuses it on its unique index
+	// and the persisted log is not touched, so there is nothing to judge here.
+	resend := true
+	for _, l := range logs {
+		if l == nil || l.ID == nil || !l.ID.IsInt64() || l.ID.Int64() < 0 || l.ID.Int64() >= int64(len(li.m.Rows)) ||
+			!bytes.Equal(li.m.Rows[l.ID.Int64()].Hash, l.Hash) {
+			resend = false
+			break
+		}
+	}
+	if resend {
+		s.count("probe.batch-resent-after-ambiguous-commit")
+		return
+	}
 	want := int64(len(li.m.Rows))
 	nextTx := c.nextTx
 	for i, l := range logs {
